@@ -848,6 +848,9 @@ func (e *arityEnv) num(x ast.Expr) (int64, bool) {
 
 func (e *arityEnv) truth(x ast.Expr) bool {
 	x = ast.Unparen(x)
+	if tv := e.info.Types[x]; tv.Value != nil && tv.Value.Kind() == constant.Bool {
+		return constant.BoolVal(tv.Value)
+	}
 	switch t := x.(type) {
 	case *ast.UnaryExpr:
 		if t.Op == token.NOT {
@@ -887,6 +890,45 @@ func (e *arityEnv) truth(x ast.Expr) bool {
 	return false
 }
 
+// truthBody evaluates a function body made of guard clauses: if cond { return e } ...; return e.
+func (e *arityEnv) truthBody(stmts []ast.Stmt) (val bool, returned bool) {
+	for _, st := range stmts {
+		switch t := st.(type) {
+		case *ast.ReturnStmt:
+			if len(t.Results) != 1 {
+				e.fail = "a return without a single result"
+				return false, true
+			}
+			return e.truth(t.Results[0]), true
+		case *ast.IfStmt:
+			if t.Init != nil {
+				e.fail = "an if statement with an init clause"
+				return false, true
+			}
+			if e.truth(t.Cond) {
+				if v, r := e.truthBody(t.Body.List); r {
+					return v, true
+				}
+			} else if t.Else != nil {
+				var list []ast.Stmt
+				switch el := t.Else.(type) {
+				case *ast.BlockStmt:
+					list = el.List
+				default:
+					list = []ast.Stmt{el}
+				}
+				if v, r := e.truthBody(list); r {
+					return v, true
+				}
+			}
+		default:
+			e.fail = "a statement that is no guard clause"
+			return false, true
+		}
+	}
+	return false, false
+}
+
 func ruleR0211(c *Ctx) {
 	decls, fg := c.optimizerMethods()
 	a := c.genAnchors()
@@ -896,22 +938,18 @@ func ruleR0211(c *Ctx) {
 	}
 	info := fg.TypesInfo
 	// the reference: the method of Function with one integer parameter whose single return is a condition over Args
-	var ref ast.Expr
+	var ref *ast.BlockStmt
 	var refName string
 	for _, f := range fg.Syntax {
 		for _, d := range f.Decls {
 			fd, ok := d.(*ast.FuncDecl)
-			if !ok || fd.Body == nil || fd.Recv == nil || recvTypeName(fd.Recv.List[0].Type) != "Function" || len(fd.Body.List) != 1 || fd.Type.Params.NumFields() != 1 {
+			if !ok || fd.Body == nil || fd.Recv == nil || recvTypeName(fd.Recv.List[0].Type) != "Function" || len(fd.Body.List) == 0 || len(fd.Body.List) > 4 || fd.Type.Params.NumFields() != 1 || fd.Type.Results.NumFields() != 1 {
 				continue
 			}
-			r, ok := fd.Body.List[0].(*ast.ReturnStmt)
-			if !ok || len(r.Results) != 1 {
+			if b, ok := info.TypeOf(fd.Type.Results.List[0].Type).Underlying().(*types.Basic); !ok || b.Kind() != types.Bool {
 				continue
 			}
-			if b, ok := info.TypeOf(r.Results[0]).Underlying().(*types.Basic); !ok || b.Kind() != types.Bool {
-				continue
-			}
-			if containsNode(r.Results[0], func(y ast.Node) bool { s, ok := y.(*ast.SelectorExpr); return ok && s.Sel.Name == "Args" }) {
+			if containsNode(fd.Body, func(y ast.Node) bool { s, ok := y.(*ast.SelectorExpr); return ok && s.Sel.Name == "Args" }) {
 				// used by generated code as the mismatch test?
 				obj, _ := info.Defs[fd.Name].(*types.Func)
 				used := false
@@ -928,7 +966,7 @@ func ruleR0211(c *Ctx) {
 						c.Undecided("funcGen.Function#arity-test", fd.Pos(), "more than one arity test used by generated code (%s, %s)", refName, fd.Name.Name)
 						return
 					}
-					ref, refName = r.Results[0], fd.Name.Name
+					ref, refName = fd.Body, fd.Name.Name
 				}
 			}
 		}
@@ -1022,7 +1060,10 @@ func ruleR0211(c *Ctx) {
 							fold = false
 						}
 					}
-					mismatch := env.truth(ref)
+					mismatch, returned := env.truthBody(ref.List)
+					if !returned && env.fail == "" {
+						env.fail = "the arity test does not return on every path"
+					}
 					if env.fail != "" {
 						undecided = env.fail
 						break
